@@ -17,6 +17,7 @@ from .peer import PeerSim, fix_time
 SESSION_TYPES = refframer.SESSION_TYPES
 SLOT_KINDS = ["app", "app", "app", "app_pdN", "declined", "sess0", "sess1", "sessA", "sess2", "sess4", "sess5", "hole", "res_pd", "res_gf"]
 BIG = 2**62
+U8_TEXTS = ["Z\u00fcrich", "\u20ac 5", "\u00e9\u00e8\u00ff", "\u4e2d\u6587", "na\u00efve \U0001f600", "\u00a0"]
 
 
 def make_config(seed, tier="quick"):
@@ -27,7 +28,14 @@ def make_config(seed, tier="quick"):
     if r.random() < 0.5:
         kinds = [k for k in kinds if not k.startswith("res_")] or ["app"]
     slots = [r.choice(kinds) for _ in range(K)]
+    # separate stream (keeps every other knob of a seed as it was): application messages whose Text is
+    # not ASCII - a retransmission has to carry the very same bytes
+    r8 = random.Random(seed ^ 0xC06A8)
+    if r8.random() < 0.35:
+        slots = [("app_u8" if k == "app" and r8.random() < 0.6 else k) for k in slots]
+    u8_live = r8.random() < 0.3
     return dict(
+        u8_live=u8_live,
         seed=seed,
         eut_role=r.choice(["acceptor", "initiator"]),
         hb=1000,
@@ -98,10 +106,12 @@ class ResendSim(PeerSim):
             st = fix_time(EPOCH - 5000 + n)
             if kind == "hole":
                 continue
-            if kind in ("app", "declined", "app_pdN"):
+            if kind in ("app", "declined", "app_pdN", "app_u8"):
                 body = [("11", f"J-{n}"), ("55", "ES"), ("54", "1"), ("38", n), ("44", "2.5")]
                 if kind == "declined":
                     body.append(("58", f"NOREPLAY {n}"))
+                elif kind == "app_u8":
+                    body.append(("58", (U8_TEXTS[n % len(U8_TEXTS)] + f" {n}").encode("utf-8")))
                 else:
                     body.append(("58", f"text {n} a=b"))
                 # app_pdN: an original transmission that spells out PossDupFlag=N
@@ -239,7 +249,8 @@ class ResendSim(PeerSim):
             else:
                 self.live_id += 1
                 m = FIXMessage("D", {11: f"L-{self.live_id}", 55: "NQ", 54: "2", 38: self.live_id, 44: "9.75"})
-                m[58] = ("NOREPLAY live" if a[1] == "declined" else "live text") + f" {self.live_id}"
+                m[58] = ("NOREPLAY live" if a[1] == "declined" else
+                         "l\u00efve t\u00e9xt \u20ac" if self.cfg.get("u8_live") else "live text") + f" {self.live_id}"
                 self.spawn(self._live_send(m), f"live-{self.live_id}")
         elif a[0] == "gap":
             self.gap_done = True
